@@ -1,8 +1,11 @@
 //! Independent reference for C12, written from the property statement and the documented
 //! behaviour of the digester (not from its code paths):
 //!
-//! * an *immutable file* is a regular file directly inside `<db>/immutable/` whose extension is
-//!   exactly `chunk`, `primary` or `secondary` and whose stem is a decimal number;
+//! * *the immutable directory* of a node is the shallowest directory named `immutable` below the
+//!   directory handed to the digester (the repo documents an any-depth lookup: the given path
+//!   may be a parent of the real db), ties broken by path order (component-wise);
+//! * an *immutable file* is a regular file directly inside the immutable directory whose
+//!   extension is exactly `chunk`, `primary` or `secondary` and whose stem is a decimal number;
 //! * the files covered by beacon `b` are those with number <= b, in (number, file name) order;
 //! * leaf i = lower-case hex SHA-256 of file i, root = repo `MKTree` over the leaves (the Merkle
 //!   tree itself is the repo's, as allowed by the design: the property is about *which* leaves in
@@ -143,13 +146,52 @@ impl Disk {
         true
     }
 
-    pub fn has_immutable_dir(&self) -> bool {
-        self.dirs.contains(IMMUTABLE_DIR)
+    /// The node's immutable directory: the shallowest directory named `immutable`, ties broken by
+    /// path (compared component by component, as `Path::cmp` does).
+    pub fn immutable_dir(&self) -> Option<&str> {
+        self.dirs
+            .iter()
+            .filter(|d| d.rsplit('/').next() == Some(IMMUTABLE_DIR))
+            .min_by(|a, b| {
+                let (ca, cb): (Vec<&str>, Vec<&str>) = (a.split('/').collect(), b.split('/').collect());
+                ca.len().cmp(&cb.len()).then_with(|| ca.cmp(&cb))
+            })
+            .map(|d| d.as_str())
     }
 
-    /// Regular files directly inside `<db>/immutable/`: (file name, class).
+    pub fn has_immutable_dir(&self) -> bool {
+        self.immutable_dir().is_some()
+    }
+
+    /// Number of directories named `immutable` (1 = the ordinary case).
+    pub fn immutable_dir_candidates(&self) -> usize {
+        self.dirs.iter().filter(|d| d.rsplit('/').next() == Some(IMMUTABLE_DIR)).count()
+    }
+
+    /// Whether at least two directories named `immutable` share the minimal depth (the path
+    /// tie-break decides).
+    pub fn immutable_dir_tie(&self) -> bool {
+        let depths: Vec<usize> = self
+            .dirs
+            .iter()
+            .filter(|d| d.rsplit('/').next() == Some(IMMUTABLE_DIR))
+            .map(|d| d.split('/').count())
+            .collect();
+        match depths.iter().min() {
+            Some(m) => depths.iter().filter(|d| *d == m).count() > 1,
+            None => false,
+        }
+    }
+
+    /// Path (relative to the db dir) of the file `name` of the immutable directory.
+    pub fn immutable_path(&self, name: &str) -> String {
+        format!("{}/{name}", self.immutable_dir().unwrap_or(IMMUTABLE_DIR))
+    }
+
+    /// Regular files directly inside the immutable directory: (file name, class).
     pub fn immutable_dir_entries(&self) -> Vec<(&str, NameClass)> {
-        let prefix = format!("{IMMUTABLE_DIR}/");
+        let Some(dir) = self.immutable_dir() else { return Vec::new() };
+        let prefix = format!("{dir}/");
         self.files
             .keys()
             .filter_map(|p| p.strip_prefix(&prefix))
@@ -171,7 +213,7 @@ impl Disk {
                 NameClass::Immutable(n) => Some(Covered {
                     number: n,
                     name: name.to_string(),
-                    digest: self.hashes[&format!("{IMMUTABLE_DIR}/{name}")].clone(),
+                    digest: self.hashes[&self.immutable_path(name)].clone(),
                 }),
                 _ => None,
             })
@@ -194,7 +236,7 @@ impl Disk {
 
     /// Number of the immutable file at `path` (relative to the db dir), if it is one.
     pub fn immutable_number_of(&self, path: &str) -> Option<u64> {
-        let name = path.strip_prefix(&format!("{IMMUTABLE_DIR}/"))?;
+        let name = path.strip_prefix(&format!("{}/", self.immutable_dir()?))?;
         if name.contains('/') {
             return None;
         }
@@ -249,5 +291,24 @@ mod tests {
         assert_eq!(classify_name("-1.chunk"), NameClass::Unparseable);
         assert_eq!(classify_name("..chunk"), NameClass::Unparseable);
         assert_eq!(classify_name("99999999999999999999999.chunk"), NameClass::Unparseable);
+    }
+
+    #[test]
+    fn immutable_dir_rule() {
+        let mut d = Disk::default();
+        assert_eq!(d.immutable_dir(), None);
+        d.add_dir("ledger/snap/immutable");
+        assert_eq!(d.immutable_dir(), Some("ledger/snap/immutable"));
+        d.add_dir("zzz/immutable");
+        assert_eq!(d.immutable_dir(), Some("zzz/immutable"));
+        d.add_dir("db/immutable");
+        assert_eq!(d.immutable_dir(), Some("db/immutable"));
+        d.add_dir("immutable/old/immutable");
+        assert_eq!(d.immutable_dir(), Some("immutable"));
+        d.put("immutable/00001.chunk", vec![1]);
+        d.put("db/immutable/00002.chunk", vec![2]);
+        assert_eq!(d.immutables().len(), 1);
+        assert_eq!(d.immutable_number_of("db/immutable/00002.chunk"), None);
+        assert_eq!(d.immutable_number_of("immutable/00001.chunk"), Some(1));
     }
 }
